@@ -322,6 +322,22 @@ def r_nodup(ctx):
         ks, kd = M.contains(k, lambda x: popped(x, 'state')), M.contains(k, lambda x: popped(x, 'depth'))
         ctx.check(ks and kd, 'R11.d', 'dedup-key/pop', qb, qb.loc(rm[0][0]), 'pop forgets the key (state, depth) of the popped node: the same lookup path as push',
                   'NoDupFringe::pop removes the key %s: not derived from both state and depth of the popped node' % M.show(k)[:200])
+        # push and pop use the SAME function of the sub-problem as key: with the sub-problem abstracted to a placeholder the two key
+        # terms are identical (a key inserted under (state, depth + 1) and removed under (state, depth) is never removed: the next push
+        # of that sub-problem is merged into a dead slot and lost)
+        def _abstract(t, is_sub):
+            if isinstance(t, tuple):
+                if is_sub(t):
+                    return ('SUBPROBLEM',)
+                return tuple(_abstract(x, is_sub) for x in t)
+            return t
+        kpush = _abstract(key, lambda x: M.is_param(x, index=1) and x[1] == pb.name)
+        popped_node = lambda x: isinstance(x, tuple) and x and x[0] == 'index' and _nd_field(x[1], 'nodes') and x[2] == M.simplify_field(idt, '0', None)
+        kpop = _abstract(k, popped_node)
+        strip_site = lambda t: tuple(strip_site(x) for x in t[:3]) + (None,) if isinstance(t, tuple) and t and t[0] == 'call' and len(t) == 4 else (tuple(strip_site(x) for x in t) if isinstance(t, tuple) else t)
+        ctx.check(strip_site(kpush) == strip_site(kpop), 'R11.d', 'dedup-key/same-at-push-and-pop', qb, qb.loc(rm[0][0]),
+                  'pop removes the key under which push inserted the sub-problem (the same expression of its state and depth)',
+                  'push inserts under %s but pop removes %s: the entry of a popped sub-problem can stay behind' % (M.show(key)[:90], M.show(k)[:90]))
         ctx.check(_carries(k, lambda x: popped(x, 'state')), 'R11.d', 'dedup-key-carries-the-state/pop', qb, qb.loc(rm[0][0]), 'the key forgotten by pop contains the state itself',
                   'NoDupFringe::pop removes the key %s: a digest of the state, not the state' % M.show(k)[:200])
         r = qb.reach(qb.after(srp), avoid=[qb.term_point(rm[0][0])])
